@@ -9,10 +9,10 @@ impl Bvd {
     pub open spec fn wf(&self) -> bool {
         &&& self.size_ok()
         &&& self.length <= self.data@.len() * 64
-        &&& forall|i: int| self.length <= i < self.data@.len() * 64 ==> !bit_at(self.data@, i)
+        &&& forall|i: int| self.length <= i < self.data@.len() * 64 ==> !bit_at{X}(self.data@, i)
     }
     pub open spec fn bits(&self) -> Seq<bool> {
-        Seq::new(self.length as nat, |i: int| bit_at(self.data@, i))
+        Seq::new(self.length as nat, |i: int| bit_at{X}(self.data@, i))
     }
 }
 /// A-size for a requested length: the allocation for `l` bits stays below usize::MAX/2 bits
@@ -22,11 +22,11 @@ pub open spec fn fresh_words(len: int) -> int { (len + 63) / 64 }
 
 pub proof fn lemma_zero_seq(d: Seq<u64>)
     requires forall|k: int| 0 <= k < d.len() ==> d[k] == 0u64
-    ensures forall|i: int| 0 <= i < d.len() * 64 ==> !bit_at(d, i)
+    ensures forall|i: int| 0 <= i < d.len() * 64 ==> !bit_at{X}(d, i)
 {
-    assert forall|i: int| 0 <= i < d.len() * 64 implies !bit_at(d, i) by {
+    assert forall|i: int| 0 <= i < d.len() * 64 implies !bit_at{X}(d, i) by {
         assert(d[i / 64] == 0u64);
-        lemma_wbit_zero((i % 64) as u64);
+        lemma_wbit_zero{X}((i % 64) as u64);
     }
 }
 
@@ -46,5 +46,5 @@ pub fn verif_iter_map_collect<F: Fn(&u64) -> u64>(s: &[u64], f: F) -> (v: Vec<u6
     requires forall|i: int| 0 <= i < s@.len() ==> f.requires((&s[i],)),
     ensures v@.len() == s@.len(), forall|i: int| 0 <= i < s@.len() ==> f.ensures((&s[i],), v@[i]),
 { s.iter().map(f).collect() }
-pub assume_specification<T, A: core::alloc::Allocator> [<Box<[T], A> as core::convert::AsRef<[T]>>::as_ref](b: &Box<[T], A>) -> (s: &[T])
-    ensures s@ == b@;
+pub assume_specification<T: ?Sized, A: core::alloc::Allocator> [<Box<T, A> as core::convert::AsRef<T>>::as_ref](b: &Box<T, A>) -> (s: &T)
+    ensures s == &**b;
